@@ -18,6 +18,13 @@ def P(level, rule, quick, thorough, **kw):
     return d
 
 PROPS = {
+    "C12": P("exploration",
+             "seeded cases: dataset x 1..3 DSN option strings {none, preload, lrucache+size 0/small/large, both, invalid size} (one file copy per option string) x 4..14 query texts (0..3 group-by columns, matching nothing/everything, unknown columns, unparsable, bound arguments; DB.Query and Prepare+Stmt.Query); non-trivial = a query with >=2 rows or a grouped query without groups; distinct = distinct case hash",
+             (1200, 100), (40000, 900)),
+    "C11": P("exploration",
+             "seeded cases: query text mixing literals and placeholders (repeated, out of order, gaps) x 1..8 executions with argument lists (strings incl. quotes/newlines/non-ASCII, integers; too few, exact, too many) through Prepare+Stmt.Query, DB.Query and queryparser.ReplacePlaceholders; one third of the cases run the executions of one *sql.Stmt on 2..3 tasks under the seeded scheduler with TSan; non-trivial = >=1 placeholder and >=2 executions; distinct = distinct case hash",
+             (1600, 100), (50000, 900),
+             assumptions=["database/sql hands a freed pooled connection to a random waiter; scheduled runs keep MaxOpenConns >= tasks so that nobody waits"]),
     "C09": P("exploration",
              "seeded cases of 120 inputs each: grammar-derived sentences (nesting <=6 quick / <=40 thorough, all value shapes, placeholders incl. $0, $007, 2^31-1, 2^31, 2^32+1, 26 digits), token-level mutations (drop/duplicate/swap/insert/trailing tokens, unterminated strings, mixed &/| without parentheses) and raw bytes incl. invalid UTF-8 and NUL; each ParseQuery call is checked for return-at-quiescence (deadlock), goroutine census and accept/reject/tree against RefParser; non-trivial = case with an input of >=3 tokens; distinct = distinct case hash",
              (800, 100), (40000, 900),
